@@ -72,8 +72,9 @@ def generate(ctx):
         live = G.live_vertices(acc)
         dead = [v for v in range(n) if v not in set(live)]
 
-        def opts():
-            return dict(indel=rng.random() < 0.6, heap=rng.choice([0, 1, 10, 1e3, 1e4]),
+        def opts(few_sites=False):
+            # heap limits as a float, an int, and "no limit" (the latter two only where few error sites keep the product small)
+            return dict(indel=rng.random() < 0.6, heap=rng.choice([0, 1, 10, 1e3, 1e4] + (["inf", "inf", 10 ** 9, 1000] if few_sites else [])),
                         nvt=rng.choice([0, 0, 2, 4, 4, 33, 40]))
         # first nucleotide not an arc of the start vertex, for every live start vertex (bounded for large graphs)
         for v in (live if len(live) <= 24 else rng.sample(live, 24)):
@@ -82,7 +83,7 @@ def generate(ctx):
                 continue
             tail = G.random_walk(acc, rng.choice(live), rng.randint(k, 3 * k + 4), rng)
             s = "ACGT"[rng.choice(missing)] + tail
-            yield "repair", dict(gcase, start=int(v), s=s[:max(len(s), k)], tag="first-not-an-arc", **opts())
+            yield "repair", dict(gcase, start=int(v), s=s[:max(len(s), k)], tag="first-not-an-arc", **opts(True))
         if dead:
             v = rng.choice(dead)
             yield "repair", dict(gcase, start=int(v), s=gens.random_dna(rng, rng.randint(k, 4 * k + 3)), tag="dead-start", **opts())
@@ -103,8 +104,8 @@ def generate(ctx):
             w = G.random_walk(acc, start, rng.choice([k, 2 * k + 1, 4 * k + 3, 8 * k + 5, 14 * k + 9]), rng)
             if len(w) < k:
                 continue
-            yield "repair", dict(gcase, start=int(start), s=w, tag="walk", **opts())
-            yield "repair", dict(gcase, start=int(start), s=w[:k], tag="length-k", **opts())
+            yield "repair", dict(gcase, start=int(start), s=w, tag="walk", **opts(True))
+            yield "repair", dict(gcase, start=int(start), s=w[:k], tag="length-k", **opts(True))
             for ne in (1, 2, 4, 8):
                 s = _corrupt(rng, w, ne)
                 if len(s) >= k:
@@ -114,11 +115,11 @@ def generate(ctx):
                     p = len(w) - back
                     for x in "ACGT":
                         if x != w[p]:
-                            yield "repair", dict(gcase, start=int(start), s=w[:p] + x + w[p + 1:], tag="last-window", **opts())
+                            yield "repair", dict(gcase, start=int(start), s=w[:p] + x + w[p + 1:], tag="last-window", **opts(True))
                             break
             for p in range(0, min(k, len(w))):   # and in each of the first k positions
                 x = rng.choice([c for c in "ACGT" if c != w[p]])
-                yield "repair", dict(gcase, start=int(start), s=w[:p] + x + w[p + 1:], tag="first-window", **opts())
+                yield "repair", dict(gcase, start=int(start), s=w[:p] + x + w[p + 1:], tag="first-window", **opts(True))
             alt = list(w)
             for p in range(rng.randrange(k + 1), len(alt), k + 1):
                 alt[p] = rng.choice([c for c in "ACGT" if c != alt[p]])
@@ -174,13 +175,14 @@ def check_repair(ctx, case):
     k, s, start = case["k"], case["s"], case["start"]
     if len(s) < k:
         return
+    ctx.cls("heap|%s" % case["heap"])
     check = gens.random_dna(ctx.rng, case["nvt"]) if case["nvt"] and ctx.rng.random() < 0.5 else (oracles.vt(s, case["nvt"]) if case["nvt"] else None)
     kind, res, reads, steps = call_repair(dsw, s, acc, start, k, check=check, has_indel=case["indel"], heap=case["heap"],
                                           count_reads=bool(acc.flags.c_contiguous))
     if reads is None:
         reads = 0
     n = len(s)
-    where = "k=%d start=%s (%d) s=%s check=%s has_indel=%s heap=%g graph=%s" % (k, G.kmer(start, k), start, s, check, case["indel"], case["heap"], case["arcs"])
+    where = "k=%d start=%s (%d) s=%s check=%s has_indel=%s heap=%s graph=%s" % (k, G.kmer(start, k), start, s, check, case["indel"], case["heap"], case["arcs"])
     ctx.obs("lookups_over_budget", reads / repair_budget_reads(n, k))
     ctx.obs("loop_iterations_over_budget", steps / repair_budget_jumps(n, k, case["heap"]))
     if kind == "lookups":
@@ -206,7 +208,7 @@ def floors(agg, tier):
     c = agg["classes"]
     for name, need in (("string|first-not-an-arc", 500), ("string|dead-start", 50), ("string|last-window", 300),
                        ("string|first-window", 300), ("string|random", 200), ("string|alternating", 200), ("string|length-k", 200),
-                       ("string|edited", 500), ("family|raw", 200), ("string|many-error-sites", 30), ("string|order-8", 20), ("string|thousand-error-sites", 10), ("accessor layout|F", 500), ("accessor layout|i16", 300)):
+                       ("string|edited", 500), ("family|raw", 200), ("string|many-error-sites", 30), ("string|order-8", 20), ("string|thousand-error-sites", 10), ("accessor layout|F", 500), ("accessor layout|i16", 300), ("heap|inf", 300), ("heap|1000000000", 100)):
         if c.get(name, 0) < need:
             out.append("%s observed %d < %d" % (name, c.get(name, 0), need))
     return out
